@@ -10,3 +10,13 @@ try:
     GENERATORS.append(gen_frameuse)
 except ImportError:
     pass
+try:
+    from translate_serial import gen_serialintf
+    GENERATORS.append(gen_serialintf)
+except ImportError:
+    pass
+try:
+    from translate_locks import gen_locks
+    GENERATORS.append(gen_locks)
+except ImportError:
+    pass
